@@ -68,11 +68,11 @@ func TestC10(t *testing.T) {
 		f  func()
 	}
 	var jobs []job
-	for i := 0; i < run.N(330, 20000); i++ {
+	for i := 0; i < run.N(300, 20000); i++ {
 		i := i
 		jobs = append(jobs, job{fmt.Sprintf("a%d", i), func() { partA(t, run, base, i) }})
 	}
-	for i := 0; i < run.N(400, 25000); i++ {
+	for i := 0; i < run.N(360, 25000); i++ {
 		i := i
 		jobs = append(jobs, job{fmt.Sprintf("b%d", i), func() { partB(t, run, base, i) }})
 	}
@@ -80,7 +80,7 @@ func TestC10(t *testing.T) {
 		i := i
 		jobs = append(jobs, job{fmt.Sprintf("c%d", i), func() { partC(t, run, base, i) }})
 	}
-	for i := 0; i < run.N(260, 12000); i++ {
+	for i := 0; i < run.N(240, 12000); i++ {
 		i := i
 		jobs = append(jobs, job{fmt.Sprintf("r%d", i), func() { partR(t, run, base, i) }})
 	}
